@@ -46,6 +46,10 @@ def exclude_lists(m, sc, rnd):
         if len(direct) == len(fs) and len(fs) >= 1:
             keep = rnd.choice(direct)
             out.append(([d + rnd.choice(["/**", "/*"]), "!/" + rel(m, keep)], set(fs) - {keep}))
+    # patterns are case-sensitive: the upper-cased spelling of a file's path matches nothing
+    if members:
+        f0 = rnd.choice(sorted(members))
+        out.append((["/" + rel(m, f0).upper(), "*.H"], set()))
     hs = {f for f in members if f.endswith(".h")}
     if hs:
         out.append((["*.h"], hs))
